@@ -4,7 +4,12 @@ import json, os, sys
 sys.path.insert(0, os.path.dirname(os.path.abspath(__file__)))
 from vlib import manifest_data as md
 import glob, importlib
-for _m in sorted(glob.glob(os.path.join(os.path.dirname(os.path.abspath(__file__)), "vlib", "reg_C*.py"))):
+import subprocess
+_here = os.path.dirname(os.path.abspath(__file__))
+_tracked = set(subprocess.run(["git", "-C", _here, "ls-files", "vlib"], stdout=subprocess.PIPE, text=True).stdout.split())
+for _m in sorted(glob.glob(os.path.join(_here, "vlib", "reg_C*.py"))):
+    if ("vlib/" + os.path.basename(_m)) not in _tracked and not os.environ.get("MANIFEST_ALL"):
+        continue  # only committed checks are claimed
     mod = importlib.import_module("vlib." + os.path.basename(_m)[:-3])
     for pid, c in getattr(mod, "MANIFEST", {}).items():
         md.CHECKS[pid] = c
